@@ -33,9 +33,19 @@ def Disjoint (a n b k : Nat) : Prop := a + n ≤ b ∨ b + k ≤ a
 def lowerB (b : Byte) : Byte := if 65 ≤ b.toNat ∧ b.toNat ≤ 90 then b + 32#8 else b
 def upperB (b : Byte) : Byte := if 97 ≤ b.toNat ∧ b.toNat ≤ 122 then b - 32#8 else b
 
+/-- the needle `nd` matches at the front of `hay`, characters compared by `R hayChar needleChar` -/
+def MatchAt (R : Byte → Byte → Prop) : List Byte → List Byte → Prop
+  | [], _ => True
+  | _ :: _, [] => False
+  | b :: nd, a :: hay => R a b ∧ MatchAt R nd hay
+
 /-- what strdup/strndup assume of a successful `malloc(size)`: the block
 `[ret, ret+size)` is mapped in the new memory and nothing else changed -/
 def AllocOk (m m1 : Mem) (ret size : Nat) : Prop :=
   Mapped m1 ret size ∧ SameOutside m m1 ret size
+
+/-- example memory for the non-vacuity examples in Props.lean: "abc\0" at
+address 8, a 6-byte object at 32, nothing else mapped -/
+def exMem : Mem := ofBufs [(8, [97#8, 98#8, 99#8, 0#8]), (32, [1#8, 2#8, 3#8, 4#8, 5#8, 6#8])]
 
 end Igris.C08
